@@ -142,7 +142,9 @@ def translate(plan, steps, name, n, maxlru, uniq, flip=0):
         if a["a"] == "PrepFail":   # answered with an ERROR frame / with a frame the driver cannot parse, in turn
             c["kind"] = ["error", "garbage"][(n + a["f"] + flip) % 2]
         out.append(c)
-    return dict(n=n, name=name + ("/flip" if flip else ""), max=maxlru, uniq=uniq, hosts=hosts, conns=conns, execs=execs, steps=out)
+    # two hosts: reached at one IP address / different ports in every second behaviour (hosts are told apart by id)
+    return dict(n=n, name=name + ("/flip" if flip else ""), max=maxlru, uniq=uniq, hosts=hosts, conns=conns,
+                sameip=(hosts > 1 and (n + flip) % 2 == 0), execs=execs, steps=out)
 
 
 def variants(plan, steps, name, scenarios, maxlru, uniq):
@@ -283,7 +285,7 @@ def run(ctx):
     models = MODEL_QUICK + ([] if quick else MODEL_THOROUGH)
     nwalk = 30 if quick else 400
     nfree = 24 if quick else 400
-    pool = cf.ThreadPoolExecutor(max_workers=6 if quick else 8)
+    pool = cf.ThreadPoolExecutor(max_workers=14)   # everything TLC does starts at once
     vf._scratch_spec_dir(ctx, "w")   # create the scratch copy of spec/ before the threads use it
 
     # ---- 1. everything TLC and the Go compiler can do side by side
